@@ -242,6 +242,56 @@ func ruleB3(c *Ctx) {
 		pos = updT.Pos()
 	}
 	c.ok("B3", "synchronize/split-reply", pos, bad == "", "a plugin that does not handle split sync requests fails the synchronization", bad)
+	// the walk ends on the sender's own More flag, never on what the plugin replied
+	isReplyRoot := func(root ssa.Value, at ssa.Instruction) bool {
+		for _, src := range valueSources(root, at, 0) {
+			if call, ok := src.(*ssa.Call); ok {
+				if g := m.callee(call.Common()); g != nil && recvNamed(g) != nil && tname(recvNamed(g).Obj()) == "pluginType" {
+					return true
+				}
+			}
+			if ex, ok := src.(*ssa.Extract); ok {
+				if call, ok := ex.Tuple.(*ssa.Call); ok {
+					if g := m.callee(call.Common()); g != nil && recvNamed(g) != nil && tname(recvNamed(g).Obj()) == "pluginType" {
+						return true
+					}
+				}
+			}
+		}
+		return false
+	}
+	for _, r := range returnsOf(f) {
+		success := false
+		for _, v := range returnValues(r, 1) {
+			if isNilConst(v) {
+				success = true
+			}
+		}
+		if !success {
+			continue
+		}
+		ownFlag, replyFlag := false, false
+		for _, cd := range controls(r.Block()) {
+			cd = normCond(cd)
+			a := m.ap(cd.V)
+			if len(a.Path) == 0 || a.Path[len(a.Path)-1] != "More" {
+				continue
+			}
+			if isReplyRoot(a.Root, cd.If) {
+				replyFlag = true
+			} else if !cd.Pol {
+				ownFlag = true
+			}
+		}
+		badE := ""
+		switch {
+		case replyFlag:
+			badE = "the successful end of the synchronization depends on the More flag of the plugin's reply: a plugin that does not echo the flag (one that predates split synchronization) ends the walk after the first chunk, is reported as synchronized and becomes active having seen only a prefix of the state"
+		case !ownFlag:
+			badE = "the successful return is not controlled by the request's More flag being false: the synchronization can end before the last chunk was sent"
+		}
+		c.ok("B3", "synchronize/ends-on-own-flag", r.Pos(), badE == "", "the synchronization succeeds only after the chunk the sender itself marked as the last one", badE)
+	}
 }
 
 func ruleB5(c *Ctx) {
